@@ -136,7 +136,29 @@ func ruleC01Head(c *Ctx) {
 			}
 			// directly on the >= edge (not additionally conditioned)
 			ctl := controlAtoms(f, R, s.Block())
-			if len(ctl) > 0 && ctl[0] == "+$0.location[*] -$1 >=0" {
+			// ... or, when the body does more on that edge (counting for a log line), the store is
+			// passed on every path from the >= edge to the next evaluation of the test / the return
+			ge := atomEdges(f, R, "+$0.location[*] -$1 >=0")
+			var tests []ssa.Instruction
+			for _, b := range f.Blocks {
+				for k := range b.Succs {
+					if ge(b, k) && len(b.Instrs) > 0 {
+						tests = append(tests, b.Instrs[len(b.Instrs)-1])
+					}
+				}
+			}
+			onEveryPath := len(tests) > 0 && len(afterEdge(f, ge, func(in ssa.Instruction) bool { return in == s }, nil, func(in ssa.Instruction) bool {
+				if _, ok := in.(*ssa.Return); ok {
+					return true
+				}
+				for _, t := range tests {
+					if in == t {
+						return true
+					}
+				}
+				return false
+			})) == 0
+			if (len(ctl) > 0 && ctl[0] == "+$0.location[*] -$1 >=0") || onEveryPath {
 				c.OK(rule, FnName(f)+" | every entry >= index shifted", c.P.InstrPos(s), "decrement sits directly on the >= edge inside the full scan", true)
 			} else {
 				c.Bad(rule, FnName(f)+" | every entry >= index shifted", c.P.InstrPos(s), "decrement is conditioned by "+strings.Join(ctl, ";"), nil)
